@@ -29,10 +29,13 @@ def verify(pid, i):
     name = '%s-m%s' % (pid, i)
     dst = os.path.join(ROOT, 'seeded', name)
     os.makedirs(dst, exist_ok=True)
-    shutil.copy(os.path.join(src, 'm%s.diff' % i), os.path.join(dst, 'patch.diff'))
-    demo = open(os.path.join(src, 'm%s_demo.py' % i)).read()
-    open(os.path.join(dst, 'demo.py'), 'w').write(demo)
-    wt = '/tmp/mut/%s' % pid          # the writer's own worktree (demos may assert their import path)
+    if os.path.exists(os.path.join(src, 'm%s.diff' % i)):
+        shutil.copy(os.path.join(src, 'm%s.diff' % i), os.path.join(dst, 'patch.diff'))
+        demo = open(os.path.join(src, 'm%s_demo.py' % i)).read()
+        open(os.path.join(dst, 'demo.py'), 'w').write(demo)
+    wt = '/tmp/mut/%s' % pid          # the path of the writer's worktree (demos may assert their import path)
+    if not os.path.exists(os.path.join(wt, 'inference')):
+        worktree(wt)
     sh(['git', '-C', wt, 'checkout', '--', '.'])
     env = dict(os.environ, PYTHONPATH=wt, INFOCF_LOGLEVEL='ERROR')
     env.pop('INFOCF_VERIF', None)
@@ -54,8 +57,10 @@ def verify(pid, i):
     ok = (res['demo_clean_exit'] == 0 and res['applies'] and res['demo_changed_exit'] != 0
           and re.search(r'\b82 passed', tail) and 'failed' not in tail)
     res['confirmed'] = bool(ok)
-    notes = open(os.path.join(src, 'notes.md')).read() if os.path.exists(os.path.join(src, 'notes.md')) else ''
-    meta = {'name': name, 'breaks_property': pid, 'written_by': 'independent sub-agent given only the property text and a scratch worktree',
+    old = json.load(open(os.path.join(dst, 'meta.json'))) if os.path.exists(os.path.join(dst, 'meta.json')) else {}
+    notes = open(os.path.join(src, 'notes.md')).read() if os.path.exists(os.path.join(src, 'notes.md')) else \
+        (open(os.path.join(dst, 'notes.md')).read() if os.path.exists(os.path.join(dst, 'notes.md')) else '')
+    meta = {'name': name, 'checks': old.get('checks', {}), 'breaks_property': pid, 'written_by': 'independent sub-agent given only the property text and a scratch worktree',
             'needs_to_manifest': 'see notes.md', 'verification': res,
             'what_i_ran': 'tools/seeded.py verify %s %s: demo on clean worktree (exit 0), git apply, demo (exit != 0), full unittests with the change (82 passed)' % (pid, i)}
     json.dump(meta, open(os.path.join(dst, 'meta.json'), 'w'), indent=1)
